@@ -67,6 +67,18 @@ def atoi (i : Int) (pad : Nat) (ci : Json) : Bool := !XAtoi.translated ||
   (match XAtoi.run { p1 := i, p2 := (pad : Int) } with
    | .ok (_, st) => bytesJ st.p0
    | .panic _ => panicJson) == ci
+
+/-- the translated `lex` driven the way `parse` drives the real one: the items (type number, text), `none` when it
+panics or reports a length outside `1..len` -/
+def lexItems : Nat → List Char → List (Nat × List Char) → Option (List (Nat × List Char))
+  | 0, _, _ => none
+  | fuel+1, s, acc =>
+    if s.isEmpty then some acc.reverse else
+    match XLex.run { p0 := s.map fun c => (c.toNat : Int) } with
+    | .ok ((t, n), _) =>
+      if n < 1 ∨ (s.length : Int) < n ∨ t < 0 then none
+      else lexItems fuel (s.drop n.toNat) ((t.toNat, s.take n.toNat) :: acc)
+    | .panic _ => none
 end XL
 
 /-! ### numbers -/
@@ -254,7 +266,9 @@ def parseH : Handler := fun inp impl => do
     else if firstBad.isSome then "unknown-field"
     else if items.any (·.1 == .header) then "header" else if items.any (·.1 == .field) then "fields"
     else if items.isEmpty then "empty" else "text-only"
-  return ({ model := m, agree := m == ci, spec := concatOk && shapeOk && resOk,
+  let xlexOk := !Generated.C20.XLex.translated ||
+    XL.lexItems (s.length + 1) s [] == some (items.map fun (t, v) => (typNum t, v))
+  return ({ model := m, agree := m == ci && xlexOk, spec := concatOk && shapeOk && resOk,
             nontrivial := items.any (·.1 != .text), tag := tag } : Verdict).toJson
 
 /-! ### whole events -/
